@@ -10,4 +10,178 @@ theorem iabs_le (x d : Int) : iabs x ≤ d ↔ (-d ≤ x ∧ x ≤ d) := by
 theorem iabs_nonneg (x : Int) : 0 ≤ iabs x := by
   unfold iabs; split <;> omega
 
+/-- every interval of the list is well formed -/
+def WFl (l : List Iv) : Prop := ∀ r ∈ l, r.1 ≤ r.2
+
+/-- sorted and pairwise disjoint: each interval ends strictly before the next one starts -/
+def SD : List Iv → Prop
+  | [] => True
+  | [_] => True
+  | a :: b :: t => a.2 < b.1 ∧ SD (b :: t)
+
+def SD.dec : (l : List Iv) → Decidable (SD l)
+  | [] => isTrue trivial
+  | [_] => isTrue trivial
+  | a :: b :: t =>
+    match SD.dec (b :: t) with
+    | isTrue h => if h' : a.2 < b.1 then isTrue ⟨h', h⟩ else isFalse (fun x => h' x.1)
+    | isFalse h => isFalse (fun x => h x.2)
+
+instance : DecidablePred SD := SD.dec
+
+instance (l : List Iv) : Decidable (WFl l) := by unfold WFl; infer_instance
+
+theorem SD_tail {a : Iv} {l : List Iv} (h : SD (a :: l)) : SD l := by
+  cases l with
+  | nil => trivial
+  | cons b t => exact h.2
+
+theorem WFl_tail {a : Iv} {l : List Iv} (h : WFl (a :: l)) : WFl l :=
+  fun r hr => h r (List.mem_cons_of_mem _ hr)
+
+theorem WFl_head {a : Iv} {l : List Iv} (h : WFl (a :: l)) : a.1 ≤ a.2 := h a (by simp)
+
+theorem SD_all_right {a : Iv} {l : List Iv} (h : SD (a :: l)) (hw : WFl (a :: l)) :
+    ∀ r ∈ l, a.2 < r.1 := by
+  induction l generalizing a with
+  | nil => intro r hr; cases hr
+  | cons b t ih =>
+    intro r hr
+    have hb : a.2 < b.1 := h.1
+    cases hr with
+    | head => exact hb
+    | tail _ hr' =>
+      have hwb : b.1 ≤ b.2 := hw b (by simp)
+      have := ih (a := b) h.2 (WFl_tail hw) r hr'
+      omega
+
+/-- number of common positions of two lists, as the double sum of pairwise common lengths -/
+def rowSum (a : Iv) (l : List Iv) : Int := (l.map (intersection_len a)).sum
+def inter (l1 l2 : List Iv) : Int := (l1.map (fun a => rowSum a l2)).sum
+def colSum (l : List Iv) (b : Iv) : Int := (l.map (fun a => intersection_len a b)).sum
+
+theorem inter_cons_cons (a b : Iv) (as bs : List Iv) :
+    inter (a :: as) (b :: bs) = intersection_len a b + rowSum a bs + colSum as b + inter as bs := by
+  simp only [inter, rowSum, colSum, List.map_cons, List.sum_cons]
+  induction as with
+  | nil => simp
+  | cons c cs ih => simp only [List.map_cons, List.sum_cons]; omega
+
+theorem inter_cons_left (a : Iv) (as bs : List Iv) :
+    inter (a :: as) bs = rowSum a bs + inter as bs := by
+  simp [inter]
+
+theorem inter_cons_right (b : Iv) (as bs : List Iv) :
+    inter as (b :: bs) = colSum as b + inter as bs := by
+  induction as with
+  | nil => simp [inter, colSum]
+  | cons c cs ih =>
+    rw [inter_cons_left, inter_cons_left, ih]
+    simp [rowSum, colSum]; omega
+
+theorem inter_nil_right (as : List Iv) : inter as [] = 0 := by
+  induction as with
+  | nil => rfl
+  | cons c cs ih => rw [inter_cons_left, ih]; simp [rowSum]
+
+theorem inter_nil_left (bs : List Iv) : inter [] bs = 0 := by simp [inter]
+
+theorem rowSum_zero {a : Iv} {l : List Iv} (h : ∀ r ∈ l, intersection_len a r = 0) : rowSum a l = 0 := by
+  induction l with
+  | nil => rfl
+  | cons b t ih =>
+    simp only [rowSum, List.map_cons, List.sum_cons]
+    have h1 := h b (by simp)
+    have h2 := ih (fun r hr => h r (by simp; right; exact hr))
+    simp only [rowSum] at h2
+    omega
+
+theorem colSum_zero {b : Iv} {l : List Iv} (h : ∀ r ∈ l, intersection_len r b = 0) : colSum l b = 0 := by
+  induction l with
+  | nil => rfl
+  | cons a t ih =>
+    simp only [colSum, List.map_cons, List.sum_cons]
+    have h1 := h a (by simp)
+    have h2 := ih (fun r hr => h r (by simp; right; exact hr))
+    simp only [colSum] at h2
+    omega
+
+theorem rowSum_nonneg (a : Iv) (l : List Iv) : 0 ≤ rowSum a l := by
+  induction l with
+  | nil => simp [rowSum]
+  | cons b t ih =>
+    simp only [rowSum, List.map_cons, List.sum_cons] at *
+    have : 0 ≤ intersection_len a b := by simp only [intersection_len]; omega
+    omega
+
+theorem inter_nonneg (l1 l2 : List Iv) : 0 ≤ inter l1 l2 := by
+  induction l1 with
+  | nil => simp [inter]
+  | cons a t ih => rw [inter_cons_left]; have := rowSum_nonneg a l2; omega
+
+/-- `intersection_len` is symmetric, hence so is `inter` -/
+theorem intersection_len_comm (a b : Iv) : intersection_len a b = intersection_len b a := by
+  simp only [intersection_len]; omega
+
+theorem inter_comm (l1 l2 : List Iv) : inter l1 l2 = inter l2 l1 := by
+  induction l1 generalizing l2 with
+  | nil => rw [inter_nil_left, inter_nil_right]
+  | cons a t ih =>
+    rw [inter_cons_left, inter_cons_right, ih]
+    congr 1
+    simp only [rowSum, colSum]
+    congr 1
+    apply List.map_congr_left
+    intro b _; exact intersection_len_comm a b
+
+/-- the two-pointer sweep of `read_coverage_fraction` computes the number of common positions -/
+theorem sweep_eq_inter (l1 l2 : List Iv) (h1 : SD l1) (h2 : SD l2) (w1 : WFl l1) (w2 : WFl l2) :
+    readCoverageSweep l1 l2 = inter l1 l2 := by
+  fun_induction readCoverageSweep l1 l2 with
+  | case1 l => simp [inter]
+  | case2 a as => exact (inter_nil_right _).symm
+  | case3 a as b bs hov hlt ih =>
+    have hr := SD_all_right h1 w1
+    have ha := WFl_head w1
+    have hb := WFl_head w2
+    have hcz : colSum as b = 0 := colSum_zero (fun r hr' => by
+      have := hr r hr'; have := w1 r (by simp; right; exact hr'); simp only [intersection_len]; omega)
+    rw [ih h1 (SD_tail h2) w1 (WFl_tail w2)]
+    rw [inter_cons_cons, inter_cons_left]
+    simp [overlaps] at hov
+    simp only [intersection_len]; omega
+  | case4 a as b bs hov hlt ih =>
+    have hr := SD_all_right h2 w2
+    have ha := WFl_head w1
+    have hb := WFl_head w2
+    have hrz : rowSum a bs = 0 := rowSum_zero (fun r hr' => by
+      have := hr r hr'; have := w2 r (by simp; right; exact hr'); simp only [intersection_len]; omega)
+    rw [ih (SD_tail h1) h2 (WFl_tail w1) w2]
+    rw [inter_cons_cons, inter_cons_right]
+    simp [overlaps] at hov
+    simp only [intersection_len]; omega
+  | case5 a as b bs hov hlt ih =>
+    have hr := SD_all_right h1 w1
+    have ha := WFl_head w1
+    have hb := WFl_head w2
+    simp [left_of] at hlt
+    have hab : intersection_len a b = 0 := by simp only [intersection_len]; omega
+    have hcz : colSum as b = 0 := colSum_zero (fun r hr' => by
+      have := hr r hr'; simp only [intersection_len]; omega)
+    rw [ih h1 (SD_tail h2) w1 (WFl_tail w2)]
+    rw [inter_cons_cons, inter_cons_left]; omega
+  | case6 a as b bs hov hlt ih =>
+    have hr := SD_all_right h2 w2
+    have ha := WFl_head w1
+    have hb := WFl_head w2
+    simp [left_of] at hlt
+    have hov' : a.2 < b.1 := by
+      simp [overlaps] at hov
+      omega
+    have hab : intersection_len a b = 0 := by simp only [intersection_len]; omega
+    have hrz : rowSum a bs = 0 := rowSum_zero (fun r hr' => by
+      have := hr r hr'; simp only [intersection_len]; omega)
+    rw [ih (SD_tail h1) h2 (WFl_tail w1) w2]
+    rw [inter_cons_cons, inter_cons_right]; omega
+
 end IsoVerif.Lemmas
